@@ -233,11 +233,6 @@ structure Section (α : Type) where
   args : Text
   body : List α
 
-inductive Node where
-  | lit (s : Text)
-  | simple (cmd : Cmd) (args : Text) (fmt : Text)
-  | block (cmd : Cmd) (secs : List (Section Node))
-
 /-- what the tag constructors record (enough to compare with `_v_blocks`) -/
 structure Built where
   params : Params := []
@@ -246,6 +241,11 @@ structure Built where
   deriving Repr
 
 /-- `^[a-z][a-z0-9_]*$` with re.I (`$` also matches before one final newline) -/
+inductive Node where
+  | lit (s : Text)
+  | simple (cmd : Cmd) (b : Built) (fmt : Text)
+  | block (cmd : Cmd) (b : Built) (secs : List (Section Node))
+
 def simpleName (s : Text) : Bool :=
   let s := if s.getLast? = some '\n' then s.dropLast else s
   match s with
@@ -450,6 +450,12 @@ structure Out where
 
 def litNode (s : Text) : List Node := if s.isEmpty then [] else [.lit s]
 
+/-- add nodes to the innermost open section (or to the top level) -/
+def pushNodes (ns : List Node) (stack : List Frame) (top : List Node) : List Frame × List Node :=
+  match stack with
+  | f :: fs => ({ f with cur := ns.reverse ++ f.cur } :: fs, top)
+  | [] => ([], ns.reverse ++ top)
+
 /-- the tokens are consumed left to right; `afterBlockTag` says that the pending
 literal directly follows a block open / continuation / close tag (so a line end
 is skipped).  Returns the compiled top-level nodes. -/
@@ -468,25 +474,20 @@ def buildAux (syn : Syntax) :
     match tagRole syn tk ctx with
     | .error e => .error ⟨e, idx⟩
     | .ok role =>
-      -- add nodes to the innermost open section (or the top level)
-      let push (ns : List Node) (stack : List Frame) (top : List Node) : List Frame × List Node :=
-        match stack with
-        | f :: fs => ({ f with cur := ns.reverse ++ f.cur } :: fs, top)
-        | [] => ([], ns.reverse ++ top)
       match role with
       | .start cmd args =>
         if cmd.isBlock then
-          let (stack, top) := push (litNode lit) stack top
+          let st := pushNodes (litNode lit) stack top
           buildAux syn rest tail (idx + 1) true
             ({ cmd := cmd, sargs := args, startTok := idx, done := [], curName := cmd.name,
-               curArgs := args, cur := [] } :: stack) top exprs
+               curArgs := args, cur := [] } :: st.1) st.2 exprs
         else
           match checkSimple cmd args with
           | .error e => .error ⟨e, idx⟩
           | .ok b =>
             let fmt := if syn = .epfs then tk.fmt else ['s']
-            let (stack, top) := push (litNode lit ++ [.simple cmd args fmt]) stack top
-            buildAux syn rest tail (idx + 1) false stack top (exprs ++ b.exprs)
+            let st := pushNodes (litNode lit ++ [.simple cmd b fmt]) stack top
+            buildAux syn rest tail (idx + 1) false st.1 st.2 (exprs ++ b.exprs)
       | .cont name args =>
         match stack with
         | [] => .error ⟨⟨"Unexpected tag"⟩, idx⟩
@@ -504,8 +505,8 @@ def buildAux (syn : Syntax) :
           match checkBlock f.cmd (secs.map fun s => (s.tname, s.args)) with
           | .error e => .error ⟨e, f.startTok⟩
           | .ok b =>
-            let (stack, top) := push [.block f.cmd secs] fs top
-            buildAux syn rest tail (idx + 1) true stack top (exprs ++ b.exprs)
+            let st := pushNodes [.block f.cmd b secs] fs top
+            buildAux syn rest tail (idx + 1) true st.1 st.2 (exprs ++ b.exprs)
 
 /-- compile a source text -/
 def compile (syn : Syntax) (src : Text) : Except Located Out :=
